@@ -299,6 +299,11 @@ func (m *e1Machine) Enabled() []pt.Action {
 		if strings.Contains(m.w.P.Alpha, "tx") && len(calls) >= 1 {
 			// bodies: every single valid call, and every valid call followed by the first one;
 			// each committed, and (within the skip bound) failing after the calls ran
+			// a body that does nothing, and one whose only call is refused: the unit is just its header
+			as = append(as, pt.Action{Op: "tx", R: i, Sub: []pt.Action{}})
+			if inv, ok := invalidCall(m.w, i); ok {
+				as = append(as, pt.Action{Op: "tx", R: i, Sub: []pt.Action{inv}})
+			}
 			for _, c := range calls {
 				bodies := [][]pt.Action{{c}, {c, calls[0]}}
 				if inv, ok := invalidCall(m.w, i); ok {
